@@ -159,7 +159,7 @@ def rule_AB(run: Run) -> RuleResult:
     nec = ("the default may be consulted only when the key is absent (and a default exists): an eager "
            "default runs a dataset body that is not needed (C06) and may fail although the key is present (C04)")
     for name in ("evaluate", "validate", "keys", "explain"):
-        fn = opt.methods[name]
+        fn = opt.method(name)
         ps = run.paths(opt, name)
         n = 0
         ok = True
@@ -202,7 +202,7 @@ def rule_MP(run: Run) -> RuleResult:
     repo = run.repo
     opt = repo.cls("Option")
     f = opt.module.relpath
-    fn = opt.methods["evaluate"]
+    fn = opt.method("evaluate")
     nec = ("every value an Option returns — provided or default — must pass the type request and the "
            "domain check; a value outside the declared domain is never returned (C04, C18)")
     ps = run.paths(opt, "evaluate")
@@ -760,7 +760,7 @@ def rule_NK(run: Run) -> RuleResult:
                 if tg_:
                     ft_pref = tg_[0]
                     break
-    inh_p = astu.param_names(ns.methods[roles["_inherit"]])[0]
+    inh_p = astu.param_names(ns.method(roles["_inherit"]))[0]
     plan = {"_from_type": ft_pref, "_inherit": inh_p, "__getitem__": f"self.{KEYATTR}", "_build_doc": f"self.{KEYATTR}"}
     n = 0
 
@@ -806,7 +806,7 @@ def rule_NK(run: Run) -> RuleResult:
         check(fn, prefix, mname)
     # _from_type: the key of the namespace is parent.name (name at the root).  Read off a synthetic
     # function made of the statements up to the last assignment of the prefix variable.
-    ft = ns.methods[roles["_from_type"]]
+    ft = ns.method(roles["_from_type"])
     ok = False
     shown = ""
     last = max((i for i, st_ in enumerate(ft.body) if any(isinstance(x, ast.Name) and x.id == ft_pref and isinstance(x.ctx, ast.Store) for x in ast.walk(st_))), default=None)
